@@ -33,6 +33,14 @@ func (w *driveWorld) runBig(maxN int) {
 	}
 	w.emit(newEv("reset", w.h, w.i))
 	w.flush()
+	if w.h == 1 {
+		if pan := protect(w.sizeSweep); pan != "" {
+			w.fail([]string{"C13"}, "map.part.sweep", "panic", "the size sweep panicked: "+pan)
+		}
+		if len(w.fails) > 0 {
+			return
+		}
+	}
 	if w.h == 0 {
 		if pan := protect(w.bigBatch); pan != "" {
 			w.fail([]string{"C04"}, "verifiers", "panic", "the big-batch verification panicked: "+pan)
@@ -464,6 +472,53 @@ func (w *driveWorld) bigBatch() {
 			} else if !b.false && e != nil {
 				w.fail([]string{"C02"}, api, "verify.reject", fmt.Sprintf("%s rejects %s (%d claims): %v", api, b.name, len(b.hs), e))
 			}
+		}
+	}
+}
+
+// sizeSweep (once per run): a map forest that remembers every leaf grows leaf by leaf to
+// 1 700 leaves; at every size it is written and restored (with other data following in the
+// stream) and the restored forest must have the same leaf count, roots, number of stored
+// nodes and of remembered leaves, and the byte counts must agree.  Code that treats the
+// stream in chunks goes wrong at particular record counts only.
+func (w *driveWorld) sizeSweep() {
+	m := utreexo.NewMapPollard(false)
+	trailer := []byte{0xA5, 0x5A, 0xA5, 0x5A, 0xA5}
+	for n := 0; n < 1700; n++ {
+		lf := utreexo.Leaf{Hash: leafHash("verif-sweep", uint64(n)), Remember: true}
+		if err := m.Modify([]utreexo.Leaf{lf}, nil, utreexo.Proof{}); err != nil {
+			return
+		}
+		if n < 780 && n%7 != 0 {
+			continue // (every size from 780 on, a sample below)
+		}
+		var buf bytes.Buffer
+		wn, err := m.Write(&buf)
+		if err != nil || wn != buf.Len() {
+			w.fail([]string{"C13"}, "map.part.sweep", "bytecount", fmt.Sprintf("writing a forest of %d leaves: reported %d bytes, wrote %d, err=%v", n+1, wn, buf.Len(), err))
+			return
+		}
+		L := buf.Len()
+		buf.Write(trailer)
+		x := utreexo.NewMapPollard(false)
+		rd := bytes.NewReader(buf.Bytes())
+		rn, err := x.Read(rd)
+		w.calls += 2
+		if err != nil || rn != L || rd.Len() != len(trailer) {
+			w.fail([]string{"C13"}, "map.part.sweep", "roundtrip", fmt.Sprintf("restoring the %d bytes of a forest of %d leaves (%d stored nodes, %d remembered leaves): reported %d bytes, %d bytes left in the reader (want %d), err=%v",
+				L, n+1, m.Nodes.Length(), m.CachedLeaves.Length(), rn, rd.Len(), len(trailer), err))
+			return
+		}
+		same := x.GetNumLeaves() == m.GetNumLeaves() && x.Nodes.Length() == m.Nodes.Length() && x.CachedLeaves.Length() == m.CachedLeaves.Length()
+		ra, rb := m.GetRoots(), x.GetRoots()
+		same = same && len(ra) == len(rb)
+		for i := 0; same && i < len(ra); i++ {
+			same = ra[i] == rb[i]
+		}
+		if !same {
+			w.fail([]string{"C13"}, "map.part.sweep", "roundtrip", fmt.Sprintf("the forest of %d leaves (%d stored nodes, %d remembered leaves) restored from its own bytes differs: %d leaves, %d nodes, %d remembered leaves, roots equal: %v",
+				n+1, m.Nodes.Length(), m.CachedLeaves.Length(), x.GetNumLeaves(), x.Nodes.Length(), x.CachedLeaves.Length(), false))
+			return
 		}
 	}
 }
